@@ -75,6 +75,26 @@ def replayO (idx : Nat → Nat) : St → List (Nat × Bool) → List Ev → List
     | none => (s1, acc.reverse, some acc.length, bad1.reverse)
     | some (ev, s') => replayO idx s' is (ev :: acc) bad1
 
+/-- does the edge list have a cycle (transitive closure by `n` rounds of composition) -/
+def hasCycle (n : Nat) (es : List (Nat × Nat)) : Bool :=
+  let close := (List.range n).foldl (fun (r : List (Nat × Nat)) _ =>
+    r ++ (r.flatMap (fun ab => (es.filter (fun bc => bc.1 == ab.2 && !(r.contains (ab.1, bc.2)))).map (fun bc => (ab.1, bc.2)))).eraseDups) es
+  close.any (fun ab => ab.1 == ab.2)
+
+/-- walk the instrumented run and check in EVERY visited state: the clock invariant (`stampsOK`), no cycle in the wait-for
+graph, not deadlocked; also count the states that have wait-for edges (non-vacuity) -/
+def gscan (idx : Nat → Nat) (keys : List Nat) : GSt → List Nat → (Bool × Nat × Nat × Nat) → (Bool × Nat × Nat × Nat)
+  | g, sched, (ok, cyc, dead, waits) =>
+    let es := waitEdges idx g.base
+    let acc := (ok && g.stampsOK keys, cyc + (if hasCycle g.base.cs.length es then 1 else 0),
+                dead + (if g.base.deadlocked idx then 1 else 0), waits + (if es.isEmpty then 0 else 1))
+    match sched with
+    | [] => acc
+    | i :: is =>
+      match gstep idx g i with
+      | none => gscan idx keys g is acc
+      | some (_, g') => gscan idx keys g' is acc
+
 def parseBytes (j : Json) : Except String (Option (List Nat)) := opt natList j
 
 def sevToJson : SEv → Json
@@ -120,6 +140,43 @@ def dreplayO (enc : Nat → List Nat) (idx : Nat → Nat) : DSt → List (Nat ×
     | none => (s1, acc.reverse, some acc.length)
     | some (ev, s') => dreplayO enc idx s' is (ev :: acc)
 
+/-- phase 5, per state of the file-level system: (some unfinished caller has NO enabled action, some writer is in the middle of an entry) -/
+def dstateScan (enc : Nat → List Nat) (idx : Nat → Nat) (parts : Nat) (s : DSt) : Bool × Bool :=
+  let n := s.base.cs.length
+  let acts : List DAct := [DAct.base, DAct.close] ++ (List.range (parts + 1)).map DAct.chunk
+  ((List.range n).any (fun i => match s.base.cs[i]? with
+      | some c => !c.terminal && acts.all (fun a => (dstep enc idx s i a).isNone)
+      | none => false),
+   (List.range n).any (fun i => decide (0 < writeLeft enc s i)))
+
+/-- walk the file-level run (oracle handling as `dreplayO`) and count: states with a stuck caller (`chunked_no_caller_stuck`),
+steps that do not decrease the variant (`chunked_progress_bounded`), states with a writer in the middle of an entry -/
+def dscan (enc : Nat → List Nat) (idx : Nat → Nat) (parts : Nat) : DSt → List (Nat × DAct × Bool) → (Nat × Nat × Nat) → (Nat × Nat × Nat)
+  | s, [], (stuck, bad, wst) =>
+    let r := dstateScan enc idx parts s
+    (stuck + (if r.1 then 1 else 0), bad, wst + (if r.2 then 1 else 0))
+  | s, (i, a, sees) :: is, (stuck, bad, wst) =>
+    let r := dstateScan enc idx parts s
+    let stuck1 := stuck + (if r.1 then 1 else 0)
+    let wst1 := wst + (if r.2 then 1 else 0)
+    let s1 : DSt := match s.base.cs[i]? with
+      | some c =>
+        match c.pc with
+        | .rmChk k f _ => if a == DAct.base then { s with base := { s.base with cs := s.base.cs.set i { c with pc := .rmChk k f sees } } } else s
+        | _ => s
+      | none => s
+    match dstep enc idx s1 i a with
+    | none => (stuck1, bad, wst1)
+    | some (ev, s') =>
+      let b : Bool := match ev with
+        | .base e _ => e != Ev.spin && !(decide (s'.base.measure < s1.base.measure))
+        | _ => (match s1.base.cs[i]? with
+          | some c => (match c.pc with
+            | .gsPopW _ (.ok _) => !(decide (writeLeft enc s' i < writeLeft enc s1 i))
+            | _ => false)
+          | none => false)
+      dscan enc idx parts s' is (stuck1, bad + (if b then 1 else 0), wst1)
+
 def parseAct (j : Json) : Except String DAct := do
   let l ← arr j
   match l with
@@ -151,6 +208,9 @@ def handle (req : Json) : Except String Json := do
     let (s, evs, stuck, spurious) := replayO idx s0 (sched.zip seesL) [] []
     let sN := runN idx s0 (fun t => sched.getD t 0) sched.length
     let keys := List.range idxl.length
+    -- phase 5: the ghost-clock instrumented run on the same schedule (get_set-only theorems)
+    let gN := grun idx (ginit progs) sched
+    let (gAllOK, gCyc, gDead, gWaits) := gscan idx keys (ginit progs) sched (true, 0, 0, 0)
     let enabled := (List.range s.cs.length).map (fun i =>
       match step idx s i with
       | none => Json.null
@@ -169,6 +229,18 @@ def handle (req : Json) : Except String Json := do
       ("unlockedSees", ofList (fun k => Json.bool (unlockedSees s k)) keys),
       ("runN_arr", ofList (fun k => ofInt (sN.arr (idx k))) keys),
       ("runN_terminal", Json.bool sN.allTerminal),
+      ("ghost", obj [
+        ("clock", ofNat gN.clock),
+        ("tm", ofList (fun j => ofNat (gN.tm j)) (List.range gN.base.cs.length)),
+        ("tp", ofList (fun k => ofNat (gN.tp k)) keys),
+        ("stampsOK", Json.bool (gN.stampsOK keys)),
+        ("allStampsOK", Json.bool gAllOK), ("cycleStates", ofNat gCyc), ("deadlockedStates", ofNat gDead), ("waitStates", ofNat gWaits),
+        ("missKey", ofList (fun (c : Caller) => ofOpt ofNat c.pc.missKey) gN.base.cs),
+        ("arr", ofList (fun k => ofInt (gN.base.arr (idx k))) keys),
+        ("terminal", Json.bool gN.base.allTerminal)]),
+      ("getSetOnly", ofList (fun p => Json.bool (GetSetOnly p)) progs),
+      ("collisionFree", Json.bool (CollisionFree idx progs)),
+      ("progKeys", ofList ofNat (progKeys progs)),
       ("wellNested", ofList (fun p => Json.bool (WellNested idx p)) progs),
       ("hier", ofList (fun p => Json.bool (Hier idx p)) progs),
       ("hierRanked", match req.getObjVal? "ord" with
@@ -238,6 +310,7 @@ def handle (req : Json) : Except String Json := do
       | [i, a, sees] => pure ((← nat i), (← parseAct a), (← bool sees))
       | _ => throw "bad sched entry")
     let (s, evs, stuck) := dreplayO enc idx (dinit progs) sched []
+    let (nStuck, nBadVariant, nWriterStates) := dscan enc idx parts (dinit progs) sched (0, 0, 0)
     let keys := List.range idxl.length
     let dinv := keys.all (fun k =>
       match s.base.cache k with
@@ -249,11 +322,26 @@ def handle (req : Json) : Except String Json := do
       ("files", ofList (fun k => fileToJson (s.file k)) keys),
       ("cache", ofList (fun k => ofOpt ofNat (s.base.cache k)) keys),
       ("dinv", Json.bool dinv),
+      ("stuckStates", ofNat nStuck), ("badVariantSteps", ofNat nBadVariant), ("writerStates", ofNat nWriterStates),
+      ("writeLeft", ofList (fun i => ofNat (writeLeft enc s i)) (List.range s.base.cs.length)),
       ("nextActs", match stuck with
         | some _ => ofList (fun i => Json.arr #[
             Json.bool (dstep enc idx s i .base).isSome, Json.bool (dstep enc idx s i .close).isSome,
             Json.arr ((List.range (parts + 1)).filter (fun b => (dstep enc idx s i (.chunk b)).isSome) |>.map ofNat).toArray]) (List.range s.base.cs.length)
         | none => Json.null)])
+  | "proto" =>
+    let bs := [false, true]
+    let xs : List Int := [-2, -1, 0, 1, 2]
+    let pairJ := fun (p : Nat × Int) => Json.arr #[ofNat p.1, ofInt p.2]
+    let g ← (do let l ← arr (← field req "guard"); match l with | [a, b] => pure ((← nat a), (← int b)) | _ => throw "bad guard")
+    let u ← (do let l ← arr (← field req "upd"); match l with | [a, b] => pure ((← nat a), (← int b)) | _ => throw "bad upd")
+    pure (obj [
+      ("getSet", ofList (fun (t : Bool × Bool × Bool) => ofList ofNat (modelGetSetPath t.1 t.2.1 t.2.2))
+        (bs.flatMap (fun a => bs.flatMap (fun b => bs.map (fun c => (a, b, c)))))),
+      ("rmv", ofList (fun (t : Bool × Bool) => ofList ofNat (modelRmvPath t.1 t.2)) (bs.flatMap (fun a => bs.map (fun b => (a, b))))),
+      ("guard", ofList (fun x => Json.bool (guardHolds g x)) xs),
+      ("upd", ofList (fun x => ofInt (applyUpd u x)) xs),
+      ("echo", Json.arr #[pairJ g, pairJ u])])
   | _ => throw s!"unknown op {op}"
 
 end Coba.C19.Driver
